@@ -250,6 +250,7 @@ struct MC {
       for (; cursor < c->got.size(); cursor++) {
          const Message & m = *c->got[cursor]();
          if (m.what == PR_RESULT_DATAITEMS) {
+            if (getenv("HM_DUMP")) { fprintf(stderr, "c%d <- DATAITEMS:", no); for (MessageFieldNameIterator it = m.GetFieldNameIterator(); it.HasData(); it++) fprintf(stderr, " %s(x%u)", it.GetFieldName()(), m.GetNumValuesInName(it.GetFieldName())); fprintf(stderr, "\n"); }
             dataMsgs++; if ((long)m.GetNumNames() > maxNamesInOneUpdate) maxNamesInOneUpdate = (long)m.GetNumNames();
             std::map<std::string, std::string> & dst = inQuery ? qres : mirror;
             const String * s; for (uint32 i = 0; m.FindString(PR_NAME_REMOVED_DATAITEMS, i, &s).IsOK(); i++) { dst.erase(s->Cstr()); removalsSeen++; if (inQuery) qRemovals++; }
@@ -551,11 +552,13 @@ struct Gen {
    {
       const uint32 op = g.R(100);
       if (op < 36) {               // SETDATA
-         const uint32 n = g.chance(75, 100) ? 1 : 2 + g.R(2); std::vector<std::pair<std::string, MessageRef> > items; std::set<std::string> used; unsigned flags = 0;
+         const uint32 nr = g.R(100); const uint32 n = nr < 70 ? 1 : nr < 90 ? 2 + g.R(2) : 4 + g.R(5); std::vector<std::pair<std::string, MessageRef> > items; std::set<std::string> used; unsigned flags = 0;
          const uint32 fr = g.R(100); if (fr < 8) flags = FL_DONTCREATE; else if (fr < 16) flags = FL_DONTOVERWRITE; else if (fr < 28) flags = FL_SUPERSEDE; else if (fr < 34) flags = FL_ADDTOINDEX; else if (fr < 36) flags = FL_SUPERSEDE | FL_DONTCREATE;
          desc = vh::fmt("c%d set", c.no);
          bool f = false, w = false, o = false;
          for (uint32 i = 0; i < n; i++) { std::string p = RandPath(g); if (!used.insert(p).second) continue; MessageRef pl = RandPayload(g); items.push_back(std::make_pair(p, pl)); desc += " " + p + "=" + ShowPayload(pl);
+            // several values in one field: the server applies them in order inside ONE command, the only way a set and a filter-leave removal of one path meet in one pending update
+            if (g.chance(1, 8)) { const uint32 more = 1 + g.R(2); for (uint32 j = 0; j < more; j++) { MessageRef p2 = RandPayload(g); items.push_back(std::make_pair(p, p2)); desc += "," + ShowPayload(p2); } vh::stat("cmd|set_field_with_several_values"); }
             const std::string full = c.c->root + "/" + p;
             for (size_t j = 0; j < W.mcs.size(); j++) { MC & s = *W.mcs[j]; if (!s.Live() || (&s == &c && !s.self)) continue; int hits = 0; for (std::map<std::string, Sub>::const_iterator it = s.subs.begin(); it != s.subs.end(); ++it) if (SubMatchesPath(it->second, full)) { hits++; if (it->second.hasFilter) f = true; if (it->second.wild) w = true; } if (hits >= 2) o = true; } }
          desc += ShowFlags(flags); out.push_back(BuildSet(items, flags)); vh::stat("cmd|set"); if (flags) vh::stat("cmd|set_with_flags"); Cell("set", f, w, o);
@@ -787,13 +790,16 @@ static void Regress()
       S.Sub_(c, "a", &ge5); S.Set(a, "a", 6); S.Check("enters the filter"); S.Set(a, "a", 7); S.Check("same size inside the filter"); S.Expect(S.Holds(c, a, "a", 7), "same_size_overwrite_not_announced", "a: v=6 -> v=7 under filter v>=5");
    }
    vh::begin_case(3);
-   {  // trial scenario: set-then-remove (and remove-then-set) of one path inside one update batch
+   {  // trial scenario: a set and a removal of one path inside ONE pending update Message (forces the flush in NodeChangedAux): several
+      // values in one SETDATA field are applied in order within one command; under a filter the second value makes the node leave
       Script S("set-then-remove"); MC & a = S.Join(); MC & c = S.Join();
-      S.Sub_(c, "*"); S.Check("subscribed");
-      { std::vector<MessageRef> v; v.push_back(BuildSet1("a", Payload(100, 1, NULL))); v.push_back(BuildRemove1("a")); S.W.Send(a, Batch(v)); S.W.Log("c0 batch{set a v=1 ; remove a}"); }
-      S.Check("set then remove in one batch"); S.Expect(!S.Holds(c, a, "a"), "set_then_remove_in_one_batch", "c holds a node that was set and removed inside one BATCH");
-      { std::vector<MessageRef> v; v.push_back(BuildSet1("a", Payload(100, 1, NULL))); v.push_back(BuildRemove1("a")); v.push_back(BuildSet1("a", Payload(100, 3, NULL))); v.push_back(BuildSet1("b", Payload(100, 4, NULL))); v.push_back(BuildRemove1("*")); v.push_back(BuildSet1("b", Payload(100, 5, NULL))); S.W.Send(a, Batch(v)); S.W.Log("c0 batch{set a 1; remove a; set a 3; set b 4; remove *; set b 5}"); }
-      S.Check("set/remove/set in one batch"); S.Expect(!S.Holds(c, a, "a") && S.Holds(c, a, "b", 5), "set_then_remove_in_one_batch", "after {set a, remove a, set a, set b, remove *, set b=5} the mirror must hold only b=5");
+      S.Sub_(c, "a", &ge5); S.Sub_(c, "b"); S.Check("subscribed");
+      { std::vector<std::pair<std::string, MessageRef> > v; v.push_back(std::make_pair(std::string("a"), Payload(100, 7, NULL))); v.push_back(std::make_pair(std::string("a"), Payload(100, 2, NULL))); S.W.Send(a, BuildSet(v, 0)); S.W.Log("c0 set a={v=7},{v=2} in one field"); }
+      S.Check("enter then leave in one command"); S.Expect(!S.Holds(c, a, "a"), "set_then_remove_in_one_update", "a entered (v=7) and left (v=2) the filter v>=5 inside one command: c must not hold it");
+      { std::vector<std::pair<std::string, MessageRef> > v; v.push_back(std::make_pair(std::string("a"), Payload(100, 7, NULL))); v.push_back(std::make_pair(std::string("a"), Payload(100, 2, NULL))); v.push_back(std::make_pair(std::string("a"), Payload(100, 8, NULL))); v.push_back(std::make_pair(std::string("b"), Payload(100, 1, NULL))); v.push_back(std::make_pair(std::string("b"), Payload(100, 3, NULL))); S.W.Send(a, BuildSet(v, 0)); S.W.Log("c0 set a={7},{2},{8} b={1},{3} in one command"); }
+      S.Check("enter, leave, enter in one command"); S.Expect(S.Holds(c, a, "a", 8) && S.Holds(c, a, "b", 3), "set_then_remove_in_one_update", "after a=7,2,8 and b=1,3 in one command the mirror must hold a=8 and b=3");
+      { std::vector<MessageRef> v; v.push_back(BuildSet1("b", Payload(100, 4, NULL))); v.push_back(BuildRemove1("*")); v.push_back(BuildSet1("b", Payload(100, 5, NULL))); S.W.Send(a, Batch(v)); S.W.Log("c0 batch{set b 4; remove *; set b 5}"); }
+      S.Check("set/remove/set in one batch"); S.Expect(!S.Holds(c, a, "a") && S.Holds(c, a, "b", 5), "set_then_remove_in_one_batch", "after batch{set b=4, remove *, set b=5} the mirror must hold only b=5");
    }
    vh::begin_case(4);
    {  // unsubscribe keeps the marks of the other subscriptions; the last one gone means silence
@@ -807,10 +813,10 @@ static void Regress()
    {  // !MxUp boundary: every item must arrive, no update Message may exceed the limit
       Script S("max-update-items"); MC & a = S.Join(); MC & c = S.Join();
       S.Sub_(c, "*", NULL, 2); S.Check("subscribed with !MxUp=2"); c.maxNamesInOneUpdate = 0;
-      { std::vector<MessageRef> v; const char * n[] = {"a", "b", "c", "x", "y"}; for (int i = 0; i < 5; i++) v.push_back(BuildSet1(n[i], Payload(100, i, NULL))); S.W.Send(a, Batch(v)); S.W.Log("c0 batch{set a b c x y}"); }
-      S.Check("five nodes in one batch"); S.Expect(S.Holds(c, a, "a", 0) && S.Holds(c, a, "b", 1) && S.Holds(c, a, "c", 2) && S.Holds(c, a, "x", 3) && S.Holds(c, a, "y", 4), "max_update_items_lost_item", "five nodes set in one batch with !MxUp=2: not all arrived");
+      { std::vector<std::pair<std::string, MessageRef> > v; const char * n[] = {"a", "b", "c", "x", "y"}; for (int i = 0; i < 5; i++) v.push_back(std::make_pair(std::string(n[i]), Payload(100, i, NULL))); S.W.Send(a, BuildSet(v, 0)); S.W.Log("c0 set a b c x y in one command"); }
+      S.Check("five nodes in one command"); S.Expect(S.Holds(c, a, "a", 0) && S.Holds(c, a, "b", 1) && S.Holds(c, a, "c", 2) && S.Holds(c, a, "x", 3) && S.Holds(c, a, "y", 4), "max_update_items_lost_item", "five nodes set in one command with !MxUp=2: not all arrived");
       S.Expect(c.maxNamesInOneUpdate <= 2, "max_update_items_exceeded", vh::fmt("an update Message carried %ld field names with !MxUp=2", c.maxNamesInOneUpdate));
-      S.Remove(a, "*"); S.Check("all removed again"); S.Expect(c.mirror.size() <= 1 + 0 + 0 + (size_t)0 || !S.Holds(c, a, "a"), "max_update_items_lost_item", "removals lost");
+      S.Remove(a, "*"); S.Check("all removed again"); S.Expect(!S.Holds(c, a, "a") && !S.Holds(c, a, "y"), "max_update_items_lost_item", "removals lost");
    }
    vh::begin_case(6);
    {  // supersede: a reader that does not read gets the latest value of each node, and other nodes' queued updates survive
